@@ -54,6 +54,12 @@ class GotranCCodePrinter(C99CodePrinter):
     def _print_Float(self, flt):
         return self._print(str(float(flt)))
 
+    def _print_Mod(self, expr):
+        # fmod takes the sign of the dividend, whereas Mod (like % in
+        # Python) takes the sign of the divisor
+        num, den = [self._print(arg) for arg in expr.args]
+        return f"fmod(fmod({num}, {den}) + ({den}), {den})"
+
     def _print_Piecewise(self, expr):
         if isinstance(expr.args[0][0], Assignment):
             result = []
